@@ -1,27 +1,14 @@
 """
-per-property registry used by ./check:
-  families   : harness/driver family -> case budget per tier
+per-property registry used by ./check — one fragment per property in props.d/Cnn.py, each doing PROPS["Cnn"] = {...}:
+  families   : harness/driver family -> case budget per tier  ({"quick": n, "thorough": n})
+  claim/note : texts for MANIFEST.json (what is a theorem, what is partial / trusted base)
   project    : (op, line) -> what this property compares between implementation and model (default: whole line)
   relevant   : op -> bool, which ops belong to this property (default: all)
   mon_clauses: prefixes of monitor clauses owned by this property (default: all)
   independent_ops : every op is its own case (no shrinking needed)
+  rule, assumptions, trusted : texts for the evidence file
 """
-
-def _first(op):
-    return op.split(" ", 1)[0]
-
-PROPS = {
-    "C14": {
-        "families": {"val": {"quick": 150, "thorough": 6000}},
-        "independent_ops": True,
-        "claim": "Theorems (Lean kernel): int write/read round trip for every 64-bit value, int acceptance = FIX grammar, exact value up to 18 digits, "
-                 "boolean both directions + grammar, float acceptance = grammar, timestamp write/read at four precisions for every valid civil instant of years 0-9999, "
-                 "string identity. Not yet theorems (monitor + correspondence only): timestamp read/write and timestamp acceptance = grammar; decimals; float values.",
-        "note": "Lean kernel + propext/Classical.choice/Quot.sound; the model of fix_int.go/fix_boolean.go/fix_float.go(acceptance)/fix_utc_timestamp.go is tied to the code by "
-                "running both on the same generated texts each run; strconv/time.Parse/shopspring internals are executed, not modelled",
-        "rule": "seeded generation per value type: short strings over the type's alphabet plus near-miss characters, canonical texts, "
-                "boundary values, calendar grid with single defects, random bytes; distinct = distinct (op,input) pairs",
-        "assumptions": ["float values and shortest representation are strconv's; decimals are shopspring/udecimal's (not modelled)",
-                        "time.Parse/Format modelled for the four FIX layouts only"],
-    },
-}
+import glob, os
+PROPS = {}
+for _f in sorted(glob.glob(os.path.join(os.path.dirname(os.path.abspath(__file__)), "props.d", "C*.py"))):
+    exec(compile(open(_f).read(), _f, "exec"), {"PROPS": PROPS})
